@@ -1,8 +1,11 @@
 /-
   PrtpyProofs.BCProofs — bin completion (`Prtpy.BC`, packing/bin_completion.py):
-  refusal (C19), the lower-bound fast path and its optimality, "never worse than BFD" (C04, partial),
-  bookkeeping of `lwi` / `combs` / `undPairs` / `completions`, the branch invariant of the search and
-  feasibility of the result (C03), soundness of the dominance test.
+  §1 refusal (C19); §2 the lower-bound fast path and its optimality; §3 "never worse than BFD", anytime behaviour;
+  §4 bookkeeping of `lwi` / `combs` / `undPairs` / `completions`; §5 the branch invariant of the search and
+  feasibility of the result (C03); §6 soundness of the dominance test; §7 bounds on the result;
+  §8–§12 optimality (C04): semantic dominance and the exchange argument, completeness of `found`, of
+  `check_for_dominance`, of `find_bin_completions`, of `runBranch` and of `search`, an explicit fuel bound,
+  `bc_optimal`.
 -/
 import Prtpy
 import PrtpyProofs.Fit
@@ -850,8 +853,9 @@ example : optBins 20 ([5, 10, 4, 10, 8, 6, 4, 10, 5, 4, 4, 10].filter (· != 0))
   bc_optimal_of_eq_lowerBound (B := 20) (fuel := 100)
     (bins := [[10, 10], [10, 10], [8, 4, 4, 4], [6, 5, 5, 4]]) (by decide) (by decide +kernel) (by decide)
 
-/-- C04, statement only (not proved): with enough fuel the result has the minimum number of bins.
-    (`fuel = 0` is not enough even for the empty input: `binCompletion B [] 0 = .ok [[]]`.) -/
+/-- C04, the statement: with enough fuel the result has the minimum number of bins.
+    (`fuel = 0` is not enough even for the empty input: `binCompletion B [] 0 = .ok [[]]`.)
+    It is proved at the end of this file: `bc_optimal` (explicit fuel bound) and `bc_optimal_full_holds`. -/
 def bc_optimal_full : Prop :=
   ∀ (B : Nat) (items : List Nat), 0 < B → ∃ fuel0, ∀ fuel, fuel0 ≤ fuel → ∀ bins,
     BC.binCompletion B items fuel = .ok bins → optBins B (items.filter (· != 0)) = some bins.length
@@ -1921,6 +1925,133 @@ theorem runBranch_complete {B k bestLen : Nat} {L : List Nat} (hB : 0 < B) (hk :
           · exact Or.inr ⟨_, spawnLoop_mem others spawned hc (canFinish_not_pruned hB hk hcf), hcf⟩
 
 
+/-- **`search` is complete**: with fuel for the whole queue, if the incumbent is longer than `k` but some queued
+    branch can be finished with `k` bins (`k` at least the lower bound), the result has at most `k` bins. -/
+theorem search_complete {B k lb : Nat} {L : List Nat} (hB : 0 < B) (hlb : lb ≤ k)
+    (hL : Desc L) (hLpos : ∀ v ∈ L, 0 < v) :
+    ∀ (fuel : Nat) (queue : List BC.Branch) (best : List (List Nat)),
+      (∀ b ∈ queue, b.items.Sublist L) → queueWeight queue ≤ fuel →
+      (best.length ≤ k ∨ ∃ b ∈ queue, CanFinish B k b) →
+      (BC.search B lb fuel queue best).length ≤ k
+  | 0, queue, best, _, hw, hcase => by
+    rw [BC.search.eq_1]
+    rcases hcase with h | ⟨b, hb, _⟩
+    · exact h
+    · exfalso
+      cases queue with
+      | nil => cases hb
+      | cons c q =>
+        have := branchWeight_pos c.items.length
+        rw [queueWeight_cons] at hw; omega
+  | fuel + 1, [], best, _, _, hcase => by
+    simp only [BC.search]
+    rcases hcase with h | ⟨b, hb, _⟩
+    · exact h
+    · cases hb
+  | fuel + 1, cb :: queue, best, hsub, hw, hcase => by
+    rw [BC.search]
+    have hr1 := runBranch_weight B best.length (cb.items.length + 1) cb []
+    have hr2 := runBranch_sub (L := L) B best.length (cb.items.length + 1) cb []
+      (hsub cb List.mem_cons_self) (by simp)
+    have hr3 : k < best.length → CanFinish B k cb → _ := fun hk hcf =>
+      runBranch_complete hB hk hL hLpos (cb.items.length + 1) cb [] (Nat.le_succ _)
+        (hsub cb List.mem_cons_self) hcf
+    generalize BC.runBranch B best.length (cb.items.length + 1) cb [] = r at hr1 hr2 hr3
+    rw [queueWeight_nil, Nat.zero_add] at hr1
+    rw [queueWeight_cons] at hw
+    -- the new incumbent and the new queue satisfy the hypotheses again
+    have hcase' : (if (r.1.items.isEmpty && decide (r.1.bins.length < best.length)) = true
+          then r.1.bins else best).length ≤ k ∨ ∃ b ∈ queue ++ r.2, CanFinish B k b := by
+      by_cases hbk : best.length ≤ k
+      · left
+        split <;> rename_i h
+        · simp only [Bool.and_eq_true, decide_eq_true_eq] at h; omega
+        · exact hbk
+      · rcases hcase with h | ⟨b, hb, hbf⟩
+        · exact absurd h hbk
+        · rcases List.mem_cons.1 hb with rfl | hb
+          · rcases hr3 (by omega) hbf with ⟨h1, h2⟩ | ⟨b', hb', hbf'⟩
+            · left
+              rw [if_pos (by
+                simp only [Bool.and_eq_true, decide_eq_true_eq]
+                exact ⟨by rw [h1]; rfl, by omega⟩)]
+              exact h2
+            · exact Or.inr ⟨b', List.mem_append_right _ hb', hbf'⟩
+          · exact Or.inr ⟨b, List.mem_append_left _ hb, hbf⟩
+    generalize (if (r.1.items.isEmpty && decide (r.1.bins.length < best.length)) = true
+        then r.1.bins else best) = best' at hcase' ⊢
+    split
+    · rename_i heq
+      omega
+    · refine search_complete hB hlb hL hLpos fuel _ _ ?_ ?_ hcase'
+      · intro b hb
+        rcases List.mem_append.1 hb with hb | hb
+        · exact hsub b (List.mem_cons_of_mem _ hb)
+        · exact hr2.2 b hb
+      · rw [queueWeight_append]; omega
+
+/-- `Spec.Packable` in the vocabulary of this file -/
+theorem packs_of_packable {B m : Nat} {vals : List Nat} (h : Packable B m vals) : Packs B m vals := by
+  obtain ⟨asg, ⟨h1, h2⟩, h3⟩ := h
+  refine sdom_of_locs (l1 := List.replicate m B) h1 (by simpa using h2) ?_
+  rw [slotTotals_eq_sumsOf, List.length_replicate]
+  apply fits_of_le
+  intro i hi1 hi2
+  simp only [List.getElem_replicate]
+  exact h3 _ (List.getElem_mem hi1)
+
+/-- the fuel that suffices for an input with `n` non-zero items -/
+def enoughFuel (n : Nat) : Nat := branchWeight n
+
+/-- **C04: bin completion is optimal.**  With enough fuel (`enoughFuel n` for `n` non-zero items) the result has
+    the minimum number of bins among all packings of the non-zero items. -/
+theorem bc_optimal {B : Nat} {items : List Nat} {fuel : Nat} {bins : List (List Nat)} (hB : 0 < B)
+    (hfuel : enoughFuel (items.filter (· != 0)).length ≤ fuel)
+    (h : BC.binCompletion B items fuel = .ok bins) :
+    optBins B (items.filter (· != 0)) = some bins.length := by
+  obtain ⟨m, hm, hlb, hle, _⟩ := bc_bounds hB h
+  have hall : ∀ x ∈ items.filter (· != 0), x ≤ B :=
+    fun x hx => bc_ok_all_le h x (List.mem_filter.1 hx).1
+  obtain ⟨m', hm', hpk, _⟩ := Checkers.optBins_spec hall
+  rw [hm] at hm'
+  cases hm'
+  suffices hge : bins.length ≤ m by
+    rw [hm]; congr 1; omega
+  obtain ⟨bfd, _, hc⟩ := bc_ok_cases h
+  rw [lowerBound_filter] at hc
+  rcases hc with ⟨hl, rfl⟩ | ⟨_, rfl⟩
+  · omega
+  · have hperm := Fit.sortDesc_perm id (items.filter (· != 0))
+    refine search_complete (L := sortDesc id (items.filter (· != 0))) hB hlb (sortDesc_desc _) ?_ fuel _ _
+      ?_ ?_ (Or.inr ⟨_, List.mem_singleton.2 rfl, m, by simp, ?_⟩)
+    · intro v hv
+      have := (List.mem_filter.1 (hperm.mem_iff.1 hv)).2
+      simp only [bne_iff_ne, ne_eq] at this
+      omega
+    · intro b hb
+      rw [List.mem_singleton] at hb
+      subst hb
+      exact List.Sublist.refl _
+    · rw [queueWeight_cons, queueWeight_nil, Nat.add_zero]
+      dsimp only
+      rw [hperm.length_eq]
+      exact hfuel
+    · exact (packs_of_packable hpk).perm_right hperm.symm
+
+/-- the statement announced as `bc_optimal_full` holds -/
+theorem bc_optimal_full_holds : bc_optimal_full := by
+  intro B items hB
+  exact ⟨enoughFuel (items.filter (· != 0)).length, fun fuel hf bins h => bc_optimal hB hf h⟩
+
+example : optBins 20 ([5, 10, 4, 10, 8, 6, 4, 10, 5, 4, 4, 10].filter (· != 0)) =
+    some ([[10, 10], [10, 10], [8, 4, 4, 4], [6, 5, 5, 4]] : List (List Nat)).length :=
+  bc_optimal (B := 20) (items := [5, 10, 4, 10, 8, 6, 4, 10, 5, 4, 4, 10]) (fuel := enoughFuel 12)
+    (by decide) (by decide +kernel) (by decide +kernel)
+
+/-- the fuel bound is astronomically generous, but finite: -/
+example : enoughFuel 3 = 2604 := by decide +kernel
+
+
 end Prtpy.BCProofs
 
 /-
@@ -1945,4 +2076,17 @@ Axiom audit (`#print axioms`, observed with Lean 4.33.0; the `decide +kernel` ca
 #print axioms Prtpy.BCProofs.isDom_sum_le                -- [propext, Classical.choice, Quot.sound]
 #print axioms Prtpy.BCProofs.bc_bounds                   -- [propext, Classical.choice, Quot.sound]
 #print axioms Prtpy.BCProofs.bc_optimal_of_eq_lowerBound -- [propext, Classical.choice, Quot.sound]
+#print axioms Prtpy.BCProofs.sdom_exchange               -- [propext, Classical.choice, Quot.sound]
+#print axioms Prtpy.BCProofs.SDom.trans                  -- [propext, Quot.sound]
+#print axioms Prtpy.BCProofs.isDom_sdom                  -- [propext, Classical.choice, Quot.sound]
+#print axioms Prtpy.BCProofs.found_complete              -- [propext, Quot.sound]
+#print axioms Prtpy.BCProofs.checkDom_complete           -- [propext, Classical.choice, Quot.sound]
+#print axioms Prtpy.BCProofs.completions_complete        -- [propext, Classical.choice, Quot.sound]
+#print axioms Prtpy.BCProofs.step_complete               -- [propext, Classical.choice, Quot.sound]
+#print axioms Prtpy.BCProofs.length_completions_le       -- [propext, Quot.sound]
+#print axioms Prtpy.BCProofs.runBranch_weight            -- [propext, Quot.sound]
+#print axioms Prtpy.BCProofs.runBranch_complete          -- [propext, Classical.choice, Quot.sound]
+#print axioms Prtpy.BCProofs.search_complete             -- [propext, Classical.choice, Quot.sound]
+#print axioms Prtpy.BCProofs.bc_optimal                  -- [propext, Classical.choice, Quot.sound]
+#print axioms Prtpy.BCProofs.bc_optimal_full_holds       -- [propext, Classical.choice, Quot.sound]
 -/
